@@ -726,6 +726,13 @@ def history_options(rng, rule):
 @prop('C20')
 def C20(run):
     broken = lean_gate(run, THEOREMS['C20'])
+    if not broken:
+        from props import gen_gate
+        broken = broken + gen_gate(run, 'translator_initwrites', 'gen_initwrites', 'programs',
+                                   'Gen.{fixed,guarded,rational}Writes = C20.*Writes and Gen.*WritesElsewhere = C20.*WritesElsewhere by rfl; '
+                                   'fixed_writes_are_source, guarded_writes_are_source, rational_writes_are_source, elsewhere_is_reset (lean/Props/C20Prog.lean)',
+                                   'the class-attribute assignments of initialize() in droop/values/*.py, extracted with their path conditions, are no longer '
+                                   'the lists lean/Props/C20Prog.lean ties to the model')
     rng = rng_for(run)
     n = budget(run, 1500, 30000)
     items = []
